@@ -245,6 +245,7 @@ package fpgo
 //@   prop C10
 //@   opt lockguard=subscribers:subscribeM
 //@   modifies publisherSelf
+//@   decreases len(publisherSelf.subscribers)
 //@   requires publisherSelf != nil && PUB_WF(publisherSelf)
 //@   ensures gone: forall(j, 0, len(publisherSelf.subscribers), publisherSelf.subscribers[j] != s)
 //@   ensures shorter: len(publisherSelf.subscribers) <= old(len(publisherSelf.subscribers))
